@@ -548,7 +548,7 @@ func (e *Engine) modelToAssignment(m map[string]uint64) map[string][]uint64 {
 // possible take pseudo-random values. Uninterpreted functions hide special values of the
 // real primitives (a zero POLYVAL key annihilates everything, say), so the solver's first,
 // typically all-zero, model may not exhibit natively a defect that generic inputs do.
-func (e *Engine) diversify(nc *Term) map[string]uint64 {
+func (e *Engine) diversify(nc *Term, budget int) map[string]uint64 {
 	if e.solver == nil || len(e.inputs) == 0 || e.concreteMode() {
 		return nil
 	}
@@ -569,8 +569,7 @@ func (e *Engine) diversify(nc *Term) map[string]uint64 {
 		target[i] = e.ts.Eq(v, e.ts.Const(v.W, r|1))
 	}
 	var fixed []*Term
-	budget := 40
-	e.solver.SetTimeout(2000)
+	e.solver.SetTimeout(1500)
 	var fix func(lo, hi int)
 	fix = func(lo, hi int) {
 		if budget <= 0 || lo >= hi {
@@ -630,7 +629,7 @@ func (e *Engine) recordViolationAlt(kind, msg string, m map[string]uint64, nc *T
 	n := len(e.res.Violations)
 	e.recordViolation(kind, msg, m)
 	if len(e.res.Violations) > n {
-		if alt := e.diversify(nc); alt != nil {
+		if alt := e.diversify(nc, 40); alt != nil {
 			e.res.Violations[n].Alt = append(e.res.Violations[n].Alt, e.modelToAssignment(alt))
 		}
 	}
@@ -908,7 +907,7 @@ func (e *Engine) runPath(fn *ssa.Function) {
 				v := Violation{Harness: e.res.Harness, Kind: "panic", Msg: pe.msg, Pos: pe.pos, Model: e.modelToAssignment(m), Stack: pe.stack}
 				dup := e.sameSite(v) >= maxPerSite
 				if !dup {
-					if alt := e.diversify(e.ts.True); alt != nil {
+					if alt := e.diversify(e.ts.True, 40); alt != nil {
 						v.Alt = append(v.Alt, e.modelToAssignment(alt))
 					}
 					e.res.Violations = append(e.res.Violations, v)
@@ -922,7 +921,7 @@ func (e *Engine) runPath(fn *ssa.Function) {
 	// a completed path: keep a model of its path condition as a concrete witness input
 	if e.solver != nil && !e.concreteMode() && len(e.res.Witnesses) < e.cfg.Witnesses && len(e.inputs) > 0 {
 		e.solver.SetTimeout(3000)
-		m := e.diversify(e.ts.True)
+		m := e.diversify(e.ts.True, 5)
 		if m == nil {
 			var r Result
 			r, m = e.checkModel(e.inputs)
